@@ -121,7 +121,7 @@ func newAllowList(k string, raw any, handleKey func(key string, value any) (bool
 			return nil, fmt.Errorf("config `%s` has invalid CIDR: %s. %w", k, rawCIDR, err)
 		}
 
-		ipNet = netip.PrefixFrom(ipNet.Addr().Unmap(), ipNet.Bits())
+		ipNet = unmapPrefix(ipNet)
 
 		tree.Insert(ipNet, value)
 
@@ -166,6 +166,16 @@ func newAllowList(k string, raw any, handleKey func(key string, value any) (bool
 	}
 
 	return &AllowList{cidrTree: tree}, nil
+}
+
+// unmapPrefix converts an IPv4-mapped IPv6 prefix (::ffff:a.b.c.d/96+n) to the IPv4 prefix a.b.c.d/n.
+// The prefix length has to shrink along with the address, otherwise the result is not a valid prefix.
+// Anything else, including a mapped prefix shorter than /96 which has no IPv4 equivalent, is returned unchanged.
+func unmapPrefix(p netip.Prefix) netip.Prefix {
+	if p.Addr().Is4In6() && p.Bits() >= 96 {
+		return netip.PrefixFrom(p.Addr().Unmap(), p.Bits()-96)
+	}
+	return p
 }
 
 func getAllowListInterfaces(k string, v any) ([]AllowListNameRule, error) {
@@ -230,7 +240,7 @@ func getRemoteAllowRanges(c *config.C, k string) (*bart.Table[*AllowList], error
 			return nil, fmt.Errorf("config `%s` has invalid CIDR: %s. %w", k, rawCIDR, err)
 		}
 
-		remoteAllowRanges.Insert(netip.PrefixFrom(ipNet.Addr().Unmap(), ipNet.Bits()), allowList)
+		remoteAllowRanges.Insert(unmapPrefix(ipNet), allowList)
 	}
 
 	return remoteAllowRanges, nil
